@@ -398,9 +398,9 @@ pub fn q_grid(n: u64) -> Vec<f64> {
 
 pub fn run(run: &mut Run) {
     run.technique = "bounded exhaustive enumeration (all n up to a bound x dense q grid x 12 levels x 3 kinds for ranks; all permutations of small samples) + proptest random search; oracle = independent Wilson ranks, sorted-order model, cross-entry-point equality".into();
-    run.rule = "ranks: every n in 0..=N (quick 600, thorough 5000) x q grid (i/40, j/(2n) and 1-j/(2n) for j<60, their ±1-ulp neighbours, invalid values) x 12 levels x 3 kinds through ci_indices and Stats::ci; Stats::index on the same grid; elements: all permutations of multisets with ties for n <= 7 and random permutations beyond, for i32/u8/f64/char/&str through ci, ci_sorted_unchecked and ci_max_size with four CAP choices; non-trivial = Ok result with n >= 4 (rank cases), non-identity permutation of a non-constant multiset (element cases)".into();
+    run.rule = "ranks: every n in 0..=N (quick 1000, thorough 8000) x q grid (i/40, j/(2n) and 1-j/(2n) for j<60, their ±1-ulp neighbours, invalid values) x 12 levels x 3 kinds through ci_indices and Stats::ci; Stats::index on the same grid; elements: all permutations of multisets with ties for n <= 7 and random permutations beyond, for i32/u8/f64/char/&str through ci, ci_sorted_unchecked and ci_max_size with four CAP choices; non-trivial = Ok result with n >= 4 (rank cases), non-identity permutation of a non-constant multiset (element cases)".into();
     crate::meanref::selftest_into(run);
-    let nmax: u64 = run.tier.pick(600, 5000);
+    let nmax: u64 = run.tier.pick(1000, 8000);
     let confs: Vec<(Conf, f64)> = LEVELS.iter().flat_map(|&l| (0u8..3).map(move |k| Conf::new(k, l))).map(|c| (c, crit_z(&c).c)).collect();
     let confs_ref = &confs;
     let thorough = run.tier == crate::engine::Tier::Thorough;
@@ -428,7 +428,7 @@ pub fn run(run: &mut Run) {
     run.exhaustive_parts.push(format!("ranks for every n in 0..={nmax} on the q grid x 36 confidences; all permutations of the listed multisets for n <= 7"));
     // random ranks beyond the grid
     let s = (prop_oneof![4u64..20_000, 4u64..(1u64 << 40)], 0u64..=(1u64 << 53), crate::gen::conf(), 0u8..2).prop_map(|(n, m, conf, entry)| RankCase { n, q: X(m as f64 / (1u64 << 53) as f64), conf, entry });
-    run.prop("rank_random", run.tier.pick(20_000, 300_000), s, rank_case);
+    run.prop("rank_random", run.tier.pick(100_000, 3_000_000), s, rank_case);
     // all permutations of small multisets
     let multisets: Vec<Vec<u8>> = vec![
         vec![1, 2, 3, 4],
@@ -461,10 +461,10 @@ pub fn run(run: &mut Run) {
     // random multisets with ties, random permutations
     let s = (prop::collection::vec(0u8..14, 4..=63), prop::collection::vec(any::<u16>(), 63), crate::gen::conf(), 1u32..1000, 0usize..5)
         .prop_map(|(codes, perm, conf, qm, ty)| ElemCase { ty: TYPES[ty].into(), codes: crate::gen::permute(&codes, &perm), conf, q: X(qm as f64 / 1000.0) });
-    run.prop("elements_random", run.tier.pick(8_000, 150_000), s, elem_case);
+    run.prop("elements_random", run.tier.pick(40_000, 1_500_000), s, elem_case);
     // larger samples: 200 random permutations of one multiset per size
     let seed = run.seed_for("elements_large", 0);
-    let sizes: Vec<usize> = run.tier.pick(vec![100, 1000], vec![100, 500, 1024, 1025, 5000]);
+    let sizes: Vec<usize> = run.tier.pick(vec![100, 1000], vec![100, 500, 1024, 1025, 5000, 20000, 100000]);
     let sizes_ref = &sizes;
     run.par(sizes.len(), |si, obs| {
         let n = sizes_ref[si];
